@@ -415,7 +415,7 @@ def execute(script, run, env):
             if c15:
                 run.checks += 2
                 for nm, g_ in (("x", gx), ("y", gy)):
-                    bad = present.changed(g_)
+                    bad = present.changed(g_, run)
                     if bad:
                         run.fail("own.quad.data", {"call": k, "arg": nm, "present": g_["kind"]},
                                  "QGauss data integration modified its %s argument (%s): %s" % (nm, g_["kind"], bad))
